@@ -4,7 +4,7 @@
 # 3. patched + demo -> must FAIL                       4. ./run.sh <PROP> quick on the patched tree -> want exit 1
 set -u
 export GOFLAGS=-mod=mod GOPROXY=off GOSUMDB=off GOTOOLCHAIN=local
-P="$1"; N="$2"; SRC="${3:-/tmp/wt/$P/out/$N}"
+P="$1"; N="$2"; SRC="${3:-/tmp/wt/$P.out/$N}"
 S=$(mktemp -d /tmp/seedeval.XXXXXX)
 trap 'git -C /repo worktree remove --force "$S/w" >/dev/null 2>&1; rm -rf "$S"' EXIT
 git -C /repo worktree add -q --detach "$S/w" HEAD || exit 3
